@@ -455,7 +455,23 @@ func TestC15(t *testing.T) {
 			run.Violation(id, r.Key, r.What, map[string]any{"protocol_version": pv})
 		}
 	}
+	for i, lb := range []string{"", "conf"} {
+		id := fmt.Sprintf("busy/%d", i)
+		if !run.Mine(i+2) || !run.Want(id) {
+			continue
+		}
+		run.Journal(id, "")
+		var res []*c01Result
+		err := Bubble(t, func() { res = runC15Busy(run, run.Seed()*67+int64(i), lb) })
+		if err != nil {
+			res = append(res, &c01Result{"C15/bubble", err.Error()})
+		}
+		for _, r := range res {
+			run.Violation(id, r.Key, r.What, map[string]any{"label": lb})
+		}
+	}
 	if !run.Replaying() {
+		run.Require("busy-at-cap|label=0", "busy-at-cap|label=4")
 		run.Require("skip-inbound-check|stream-ping|pv=5", "skip-inbound-check|push-pull|pv=1", "skip-inbound-check|cleartext-request|pv=5")
 		for _, ty := range []string{"ping", "indirectPing", "ack", "nack", "suspect", "alive", "dead", "user", "compound"} {
 			run.Require("sent|packet|" + ty)
@@ -467,4 +483,75 @@ func TestC15(t *testing.T) {
 	if run.Violations() > 0 {
 		t.Errorf("%d violation(s)", run.Violations())
 	}
+}
+
+// runC15Busy: the node is at its cap of concurrent push/pull exchanges (127 join exchanges are parked in
+// a slow merge delegate). Whatever it writes to the exchanges beyond the cap - nothing at all, or a
+// refusal - must be an encrypt frame under the primary key with the label as associated data.
+func runC15Busy(run *Run, seed int64, label string) (out []*c01Result) {
+	fail := func(key, f string, a ...any) {
+		out = append(out, &c01Result{"C15/" + key, fmt.Sprintf(f, a...)})
+	}
+	key := bytes.Repeat([]byte{0x11}, 16)
+	rig, err := NewRig(RigOpts{Seed: seed, Label: label, Key: key, Spec: NodeSpec{Name: "V-busy-node-canary", IP: "10.9.9.9", WithMerge: true, Mutate: func(cf *memberlist.Config) {
+		cf.ProbeInterval = noProbe
+		cf.PushPullInterval = 0
+		cf.GossipInterval = 0
+		cf.TCPTimeout = 5 * time.Second
+	}}})
+	if err != nil {
+		fail("harness/create", "%v", err)
+		return
+	}
+	defer rig.Close()
+	V := rig.V
+	gate := make(chan struct{})
+	V.mu.Lock()
+	V.MergeVeto = func([]*memberlist.Node) error { <-gate; return nil }
+	V.mu.Unlock()
+	x := rig.AddPeer("x", "10.9.1.1", 7946)
+	for i := 0; i < 135; i++ {
+		i := i
+		go x.PushPullBlocking(true, []WPushNodeState{{Name: fmt.Sprintf("j%d", i), Addr: []byte{10, 9, 6, byte(i%250 + 1)}, Port: 7946, Incarnation: 1, State: SAlive, Vsn: DefaultVsn()}}, nil)
+		time.Sleep(time.Millisecond)
+	}
+	Settle(100 * time.Millisecond)
+	// beyond the cap: look at the raw bytes of the answers
+	refused := 0
+	for i := 0; i < 6; i++ {
+		ce, err := x.Dial()
+		if err != nil {
+			fail("harness/dial", "%v", err)
+			break
+		}
+		var frame []byte
+		rig.C.Net.Rand(func(rng *rand.Rand) {
+			frame = BuildStreamMsg(rig.SCfg, BuildPushPull(true, []WPushNodeState{x.Self(1)}, nil), rng)
+		})
+		_, _ = ce.Write(frame)
+		Settle(20 * time.Millisecond)
+		raw := drain(ce)
+		ce.Close()
+		run.Eval(1)
+		if len(raw) == 0 {
+			refused++
+			continue
+		}
+		_, frames, perr := ParseStream(raw, rig.Keys, label)
+		if perr != nil {
+			fail("leak/busy", "at the cap of concurrent push/pull exchanges the node answered a further one with %d bytes that are not an encrypt frame under the primary key with the label as associated data (%v); contains the node's name: %v; first bytes %x", len(raw), perr, bytes.Contains(raw, []byte("V-busy-node-canary")), raw[:min(len(raw), 32)])
+			break
+		}
+		for _, f := range frames {
+			if !f.Sealed {
+				fail("leak/busy", "answer at the cap contains an unsealed frame of type %s", TypeName(f.Type))
+			}
+		}
+		refused++
+	}
+	run.Cell("busy-at-cap", fmt.Sprintf("label=%d", len(label)))
+	run.Count("exchanges_beyond_cap_inspected", int64(refused))
+	close(gate)
+	Settle(6 * time.Second)
+	return
 }
